@@ -49,11 +49,17 @@ def w_subsets(ctx, rng, idx, param):
 def w_random(ctx, rng, idx):
     n = int(rng.integers(1, 7))
     psi = state(rng, n)
+    if rng.random() < 0.2:
+        with probe.oracle():
+            psi = gen.relayout_tt(rng, psi)  # state cores in other memory layouts
     k = int(rng.integers(1, n + 1))
     sub = sorted(int(i) for i in rng.choice(n, size=k, replace=False))
     N = int(10 ** rng.uniform(0, 5 if idx % 4 == 0 else 3.5))
     ctx.describe({'op': 'sampling', 'qubits': n, 'measured': sub, 'ranks': psi.ranks, 'samples': N})
-    call('quantum_computation.sampling', qc.sampling, psi, sub, N, prop=P)
+    # the measured sites as a list of Python ints, of NumPy integers, or as an integer array; the sample count as a NumPy integer
+    form = int(rng.integers(0, 4))
+    ml = [sub, [np.int64(i) for i in sub], np.array(sub), [gen.as_int(rng, i, p=1.0) for i in sub]][form]
+    call('quantum_computation.sampling', qc.sampling, psi, ml, gen.as_int(rng, N, p=0.3), prop=P)
 
 
 def w_special(ctx, rng, idx):
